@@ -425,6 +425,10 @@ class JointModel(LogisticModel):
             timepoints, individual_parameters, skip_ips_checks=skip_ips_checks
         )
 
+        if timepoints.numel() == 0:
+            # no age requested: nothing to compute (as for the other models, empty result)
+            return torch.zeros((1, 0, self.dimension + self.nb_events))
+
         # TODO? ability to revert back after **several** assignments?
         # instead of cloning the state for this op?
         local_state = self.state.clone(disable_auto_fork=True)
